@@ -27,11 +27,13 @@ SPEC_DIR = "survey"
 
 # cfg files per tier: <pair>_<flavour>.cfg, see spec/survey/gen_cfgs.py for how they were written
 FLAVOURS = {"quick": ["qs", "qe"], "thorough": ["qs", "qe", "ts", "te"]}
-NEGATIVE = [("ATEM_asbuilt.cfg", {"WriteThrough", "EditIsLocal"}),      # WaveformAliased
-            ("LLFEM_asbuilt.cfg", {"TxIdKept"}),                        # LinkFromTxDropsTxId
-            ("MLFEM_asbuilt.cfg", {"WriteThrough", "RefusedIsNoop", "ValidEditsAccepted"}),  # InputTypeSetterMLFEM, LoopRadiusNone...
-            ("TIP_asbuilt.cfg", {"ValidEditsAccepted"}),                # UnitSetterTIP
-            ("TIP1_asbuilt.cfg", {"RefusedIsNoop", "CopyCopiesPartner", "ValidEditsAccepted"})]  # TipperSingleBaseMaskedCopy
+# negative controls: one named deviation switched on, TLC must report one of these properties as violated
+NEGATIVE = [("ATEM_dev_WaveformAliased.cfg", {"WriteThrough", "EditIsLocal"}),
+            ("LLFEM_dev_LinkFromTxDropsTxId.cfg", {"TxIdKept"}),
+            ("MLFEM_dev_InputTypeSetterMLFEM.cfg", {"ValidEditsAccepted"}),
+            ("TIP_dev_UnitSetterTIP.cfg", {"ValidEditsAccepted"}),
+            ("MLTEM_dev_LoopRadiusNoneHalfApplied.cfg", {"WriteThrough", "RefusedIsNoop"}),
+            ("TIP1_dev_TipperSingleBaseMaskedCopy.cfg", {"RefusedIsNoop", "CopyCopiesPartner"})]
 
 SIGNATURES = {
     "WaveformAliased": "copy-shares-waveform-dict-with-source",
@@ -814,7 +816,10 @@ def run(tier, seed):  # pylint: disable=too-many-locals,too-many-statements
     cfgs = [(pair, f"{pair}_{fl}.cfg") for pair in PAIRS for fl in FLAVOURS[tier]]
     threads = max(1, min(6, int(os.environ.get("VERIF_PROCS", "16")) // 2))
     with ThreadPoolExecutor(threads) as ex:
+        neg_futures = [ex.submit(tlc.run_tlc, SPEC_DIR, MODULE, cfg, workers=1, heap="2g", keep_lines=False,
+                                 timeout=900) for cfg, _ in NEGATIVE]
         explored = list(ex.map(lambda pc: _explore(pc[1]), cfgs))
+        neg_results = [f.result() for f in neg_futures]
     tlc_wall = time.time() - t0
     states = trans = blocked_total = 0
     items = []
@@ -857,12 +862,11 @@ def run(tier, seed):  # pylint: disable=too-many-locals,too-many-statements
     if copies2 == 0 or reopens == 0:
         raise MachineryError("vacuous: no copy of a linked pair / no re-open was replayed to the end")
     negs = []
-    for cfg, expected in NEGATIVE:
-        res = tlc.run_tlc(SPEC_DIR, MODULE, cfg, workers=2, heap="4g", keep_lines=False, timeout=900)
+    for (cfg, expected), res in zip(NEGATIVE, neg_results):
         if not set(res.violated) & expected:
             raise MachineryError(f"negative control {cfg}: expected one of {sorted(expected)} to be violated, "
                                  f"got {res.violated}")
-        negs.append(f"{cfg}: {res.violated[0]} violated")
+        negs.append(f"{cfg}: {sorted(set(res.violated) & expected)[0]} violated")
     sample = items[order[len(order) // 2]]
     return {
         "level": "model_checking",
